@@ -44,7 +44,9 @@ P = {
          "every value-producing routine (found from the reflect stores into the target, closed under forwarding) is preceded on all feasible paths "
          "by runValidators/tryRecursiveValidate on the function's own validators, or forwards to a family member that receives those validators, or "
          "lies under a reflect-kind fact that fixes the value to a struct/Config kind; the same for Validate() via tryValidate; accessField is the only "
-         "reader of the validator tag and its result is what the family receives. One reasoned exception (pointer-to-map branch of reifyValue). "
+         "reader of the validator tag and its result is what the family receives; the value handed to the validators is the value returned (up to "
+         "pointer/interface wrappers; a default initialised after the validation is reported); every index of a list result is merged or validated. "
+         "One reasoned exception (pointer-to-map branch of reifyValue). "
          "That each built-in validator computes the right predicate is not decided.",
          TRUST + "Custom validators and Validate() methods are user code: decided is that they are called.",
          "§3 C04"),
@@ -136,7 +138,8 @@ P = {
          "one function, parsePathIdx(own name, own idx, options from own arguments), and access their own receiver through the resulting path — so a "
          "getter reads back what a setter wrote at the same address; node storage is written only by the fields methods, on freshly constructed nodes, "
          "or by the merge functions (closed set of writers, each paired under C15). Also: Remove walks with environments cleared; a child handle is "
-         "the stored config itself. The equivalence with a plain tree over all operation histories is value-level and not decided.",
+         "the stored config itself; the path writer touches the live tree only with its last fallible step (missing levels are built detached), so a "
+         "rejected write leaves the tree as it was; node mutators move stored values and never replace one by a copy. The equivalence with a plain tree over all operation histories is value-level and not decided.",
          TRUST,
          "§3 C12"),
  "C13": (True,
@@ -182,7 +185,8 @@ P = {
          "interprocedural typestate over the parser's input cursor + linear bounds prover (E3) + flag/branch agreement on SSA (custom analyzer)",
          "Decides that the flag-value parser inspects the next byte only at whitespace-skipped positions (every read of input[0] dominated by "
          "ignoreWhitespace() with no possible write of input in between; entry reads inherit the state from all call sites) — so whitespace that JSON "
-         "allows around structural characters can never cause a rejection — that all of the parser's indexing is in bounds, and that each syntax "
+         "allows around structural characters can never cause a rejection — that the skipper covers space, tab, line feed and carriage return, "
+         "that all of the parser's indexing is in bounds, and that each syntax "
          "branch is entered only under its first byte and its Config flag (IgnoreCommas selects the stop set). Holds for all documents and flag "
          "combinations. That the data returned equals the JSON document (number syntax, escapes, string termination) is value-level and not decided.",
          TRUST + "strconv.Unquote/Parse* trusted.",
@@ -191,8 +195,8 @@ P = {
          "sibling-shape comparison on SSA + def-use plumbing of source metadata (custom analyzer)",
          "Decides that the yaml/json/hjson front-ends are structurally identical siblings (decode into a local, return the decoder error, "
          "NewFrom with the caller's options unchanged; file loaders prepend MetaData(Meta{Source:name}) and delegate), that the file name "
-         "reaches options.meta, that every value and Config built by normalize* carries opts.meta and that every error constructor forwards real "
-         "metadata to messageMeta. Holds for all documents at once; equality of the data produced by the three third-party decoders is not decided.",
+         "reaches options.meta, that every value and Config built by normalize* carries opts.meta, that the intermediate nodes created for a dotted "
+         "key take the metadata of the value being stored, and that every error constructor forwards real metadata to messageMeta. Holds for all documents at once; equality of the data produced by the three third-party decoders is not decided.",
          TRUST + "Third-party decoders are outside the tree.",
          "§3 C18"),
  "C19": (True,
